@@ -47,6 +47,7 @@ type filler struct {
 	n        int
 	markers  []marker
 	maxDepth int
+	blobKeys bool   // put TLS material (a private_key member with its own marker) into opaque blobs now and then
 	tmp      string // directory for directory-mode paths
 	dirPct   int    // probability (percent) of a directory-mode router / cluster path
 	noTLS    bool
@@ -65,6 +66,22 @@ func (f *filler) newMarker(path string) string {
 	s := f.uniq("SECRETMARK") + "X"
 	f.markers = append(f.markers, marker{Secret: s, Class: pathClass(path), Path: path})
 	return s
+}
+
+// blobJSON: what an interface{} / RawMessage position at `path` is filled with
+func (f *filler) blobJSON(path string, depth int) interface{} {
+	if f.blobKeys && depth == 0 && f.r.Pct(30) {
+		cls := "blob:" + path
+		switch f.r.Intn(3) {
+		case 0:
+			return map[string]interface{}{"tls_context": map[string]interface{}{"status": true, "private_key": f.newMarker(cls)}, f.uniq("k"): f.anyJSON(1)}
+		case 1:
+			return map[string]interface{}{"Private_Key": f.newMarker(cls)}
+		default:
+			return []interface{}{f.anyJSON(1), map[string]interface{}{"upstream": map[string]interface{}{"private_key": f.newMarker(cls)}}}
+		}
+	}
+	return f.anyJSON(depth)
 }
 
 func (f *filler) anyJSON(depth int) interface{} {
@@ -112,7 +129,7 @@ func (f *filler) fill(v reflect.Value, depth int, path string) {
 		return
 	case t == rawMessageT:
 		if f.r.Pct(40) {
-			b, _ := json.Marshal(map[string]interface{}{f.uniq("k"): f.anyJSON(1)})
+			b, _ := json.Marshal(map[string]interface{}{f.uniq("k"): f.blobJSON(path, 0)})
 			v.SetBytes(b)
 		}
 		return
@@ -178,10 +195,19 @@ func (f *filler) fill(v reflect.Value, depth int, path string) {
 			f.fill(e, depth+1, fmt.Sprintf("%s[%s]", path, k))
 			m.SetMapIndex(reflect.ValueOf(k).Convert(t.Key()), e)
 		}
+		// a member named private_key directly in a string-keyed map (filter config {"private_key": ...}, metadata)
+		if f.blobKeys && f.r.Pct(12) && (t.Elem().Kind() == reflect.String || (t.Elem().Kind() == reflect.Interface && t.Elem().NumMethod() == 0)) {
+			k := []string{"private_key", "PRIVATE_KEY"}[f.r.Intn(2)]
+			mk := reflect.ValueOf(f.newMarker("blob:" + path + "[]"))
+			if t.Elem().Kind() == reflect.String {
+				mk = mk.Convert(t.Elem())
+			}
+			m.SetMapIndex(reflect.ValueOf(k).Convert(t.Key()), mk)
+		}
 		v.Set(m)
 	case reflect.Interface:
 		if t.NumMethod() == 0 {
-			if x := f.anyJSON(0); x != nil {
+			if x := f.blobJSON(path, 0); x != nil {
 				v.Set(reflect.ValueOf(x))
 			}
 		} else if t == netAddrT && f.r.Pct(50) {
